@@ -7,7 +7,8 @@ Summary: `medianCI(n, confidence)` is moremath's `QuantileCI(n, 0.5, confidence)
 interpolation; the position 1/3 + 0.5·(N + 1/3) is computed in float64 here exactly as the Go
 code does) and the interval ends from the sorted values, −Inf/+Inf when the order statistic
 lies outside the sample; an infinite end raises the "need N samples" warning, N found by
-`medianSamples` from the same external function at n = 2..50 (DATA: `needTab`).
+`medianSamplesAbove(confidence, len)` (the least size above the one at hand with a finite interval)
+from the same external function at n = 2..50 (DATA: `needTab`).
 
 Compare: three calls of moremath's `MannWhitneyUTest` (two-sided, and the two one-sided
 "less" calls) are DATA (`UExt`); the code combines them as min(1, 2·min(l1, l2)), takes α
@@ -66,11 +67,16 @@ def sampleCI {α : Type} [Val α] (ci : QCI) (xs : List α) : Option (α × Ext 
     | some l, some h => some (q, l, h)
     | _, _ => none
 
-/-- `medianSamples`: `needTab[i]` = (LoOrder, HiOrder) of `medianCI(i+2, confidence)` -/
-def medianSamples (needTab : List (Nat × Nat)) : Op × Nat :=
-  match ((needTab.take 49).zipIdx 2).find? (fun e => decide (0 < e.1.1) && decide (e.1.2 ≤ e.2)) with
+/-- `medianSamplesAbove`: the least sample size n with max(2, have+1) ≤ n ≤ 50 whose interval is
+finite; `needTab[i]` = (LoOrder, HiOrder) of `medianCI(i+2, confidence)` -/
+def medianSamplesAbove (needTab : List (Nat × Nat)) (have_ : Nat) : Op × Nat :=
+  match ((needTab.take 49).zipIdx 2).find?
+      (fun e => decide (have_ < e.2) && decide (0 < e.1.1) && decide (e.1.2 ≤ e.2)) with
   | some e => (.ge, e.2)
   | none => (.gt, 50)
+
+/-- `medianSamples` = `medianSamplesAbove(confidence, 0)` -/
+def medianSamples (needTab : List (Nat × Nat)) : Op × Nat := medianSamplesAbove needTab 0
 
 /-- `assumeNothing.Summary` -/
 def summary {α : Type} [Val α] (s : Sample α) (confidence : F64.Bits) (ci : QCI)
@@ -80,7 +86,7 @@ def summary {α : Type} [Val α] (s : Sample α) (confidence : F64.Bits) (ci : Q
   | some (median, lo, hi) =>
     let warnings : List (SWarning α) :=
       if lo.isInf || hi.isInf then
-        let on := medianSamples needTab
+        let on := medianSamplesAbove needTab s.values.length
         [.needCI on.1 on.2 confidence]
       else []
     some { center := median, lo := lo, hi := hi, confidence := ci.confidence, warnings := warnings }
